@@ -101,6 +101,13 @@ Theorem C12_lifetime_no_overflow : forall c l, c < 2 ^ 32 -> l < 2 ^ 32 ->
 Proof. exact lifetime_no_overflow. Qed.
 Print Assumptions C12_lifetime_no_overflow.
 
+(* the repaired code cannot panic on any input, whatever the library calls answer (as long as they
+   do not panic themselves): the positive counterpart of F7 and F8 *)
+Theorem C12_no_panic : forall c P private stream, fix7 c = true -> fix8 c = true -> params_np P ->
+  is_panic (pgp_key c P private stream) = false.
+Proof. exact pgp_key_no_panic. Qed.
+Print Assumptions C12_no_panic.
+
 (* ---- the code as found refutes the property (all repaired; witnesses are in the corpus) ---- *)
 
 (* F7: an EdDSA key with an empty point panics in the parser; a 21-octet point reaches ed25519.Verify *)
